@@ -4,6 +4,7 @@ import (
 	"context"
 	"errors"
 	"fmt"
+	"google.golang.org/protobuf/proto"
 	"io"
 	"strings"
 	"time"
@@ -331,7 +332,13 @@ func (s *Session) clientOp(r *rpcState, a *actor, st Step) {
 		start["size"] = WireSize(st.N)
 		s.opStart(a, st, start)
 		resp := new(wrapperspb.BytesValue)
-		err := ch.Invoke(r.ctx, method, Msg(r.n, "c", idx, st.N), resp, opts...)
+		var req proto.Message = Msg(r.n, "c", idx, st.N)
+		if has(st.Opts, "badreq") {
+			// a request that cannot be encoded (a string field holding invalid UTF-8)
+			req = &wrapperspb.StringValue{Value: "bad\xff"}
+			s.markSendFailed(r.n, "c")
+		}
+		err := ch.Invoke(r.ctx, method, req, resp, opts...)
 		f := errFields(tr.E{}, err)
 		if err == nil {
 			id := Identify(resp, r.n, "s", r.gotC)
@@ -351,12 +358,21 @@ func (s *Session) clientOp(r *rpcState, a *actor, st Step) {
 	case "send":
 		idx := r.sentC
 		r.sentC++
-		s.opStart(a, st, tr.E{"idx": idx, "n": st.N, "size": WireSize(st.N)})
+		sf := tr.E{"idx": idx, "n": st.N, "size": WireSize(st.N)}
+		if has(st.Opts, "badreq") {
+			sf["bad"] = true
+			r.sentC--
+		}
+		s.opStart(a, st, sf)
 		if r.cs == nil {
 			s.opRet(a, st, errFields(tr.E{"idx": idx}, errors.New("no stream")))
 			return
 		}
-		err := r.cs.SendMsg(Msg(r.n, "c", idx, st.N))
+		var msg proto.Message = Msg(r.n, "c", idx, st.N)
+		if has(st.Opts, "badreq") {
+			msg = &wrapperspb.StringValue{Value: "bad\xff"}
+		}
+		err := r.cs.SendMsg(msg)
 		if err != nil {
 			s.markSendFailed(r.n, "c")
 		}
